@@ -326,6 +326,9 @@ def u_pbkdf2(ctx, u):
     for _ in range(40):
         cases.append((ctx.rng.randint(0, 100), ctx.rng.randint(0, 80), ctx.rng.randint(1, 64), ctx.rng.randint(1, 100)))
     cases.append((8, 8, 1000, 40))
+    # block counter INT(i) beyond one byte: 256 blocks and more (dkLen > 255 * hLen)
+    cases.append((9, 8, 1, 255 * 32 + 1))
+    cases.append((9, 16, 2, 256 * 32 + ctx.rng.randint(1, 64)))
     for pl, sl, it, outlen in cases:
         pw = ctx.rng.randbytes(pl)
         salt = ctx.rng.randbytes(sl)
@@ -427,6 +430,8 @@ def u_kdf(ctx, u):
     for it in range(150):
         zl = ctx.rng.choice([1, 32, 64, 65, ctx.rng.randint(1, 300)])
         klen = ctx.rng.choice([1, 16, 31, 32, 33, 64, 100, 255, ctx.rng.randint(1, 700)])
+        if it < 4:
+            klen = (255 * 32, 255 * 32 + 1, 256 * 32 + ctx.rng.randint(1, 40), 65536 * 32 + 7)[it]     # counter carries into the next byte(s)
         z = ctx.rng.randbytes(zl)
         want = refsm3.kdf(z, klen) if klen < 100 else b''.join(
             hashlib.new('sm3', z + struct.pack('>I', i + 1)).digest() for i in range((klen + 31) // 32))[:klen]
